@@ -12,799 +12,737 @@ Definition show_fres (r : fres) : string :=
   end.
 Definition check (rs : list rune) : string := digest (show_fres (format_res rs)).
 Definition full (rs : list rune) : string := show_fres (format_res rs).
-Eval vm_compute in ("<<<M263>>>" ++ check (runes_of_ascii "
-packet Z9_ //x
-{ @calculatedFrom( ""1"" )
-match
-body as u8x{ [ 7 ] :
-u ,
-[7
-,00, ""a\""b""
-, """" , ""\n"" , 00
-] : charz , 1	: // c
-Packet
-, """ ++ [28040; 24687]%N ++ runes_of_ascii """ :
-f32a ,  00 : // trailing space 
-len } ,@lengthOf(calculatedFrom )	MetaDataX
-    , Packet	@lengthOf(
-    int ) , repeat // `tick` ""quote"" 'q'
-char[ 7 ]calculatedFrom, @calculatedFrom(""a\\"" ) zchar[ //
-255 // " ++ [128512]%N ++ runes_of_ascii " emoji
-] f32a @calculatedFrom( """ ++ [233]%N ++ runes_of_ascii "t" ++ [233]%N ++ runes_of_ascii """ ) ,	@calculatedFrom( ""a\""b"" // packet A { u8 x, }
-)char[7
-    //	t
-    ] i8i8 @calculatedFrom(""a\\"") `crlf
-line` ,zchar[
-    0123456789	]
-x `line1
-line2`
-,@leftPad () repeat
-u64 stringy , @lengthOf( x	) repeat
-body
-{//	t
-Z9_ {
-repeat asx , repeat crc i64_ // " ++ [27880; 37322]%N ++ runes_of_ascii "
-, repeat rootA { repeat rootA MetaDataX `line1
-line2`
-    // `tick` ""quote"" 'q'
-    ,match
-i64_ as
-calculatedFrom {
-    7
-:
-x[ 7 ] : stringy , ""1"": i8i8 , [
-""1"" , 42 ,
-// trailing space 
-/// triple
-""" ++ [233]%N ++ runes_of_ascii "t" ++ [233]%N ++ runes_of_ascii """ , 10 ,
-255 , 0 , 10 ]
-: u ,
-""x y""
-:
-    i8i8 }
-// `tick` ""quote"" 'q'
-//x
-,uint64 _x `
-` ,char[ 0 ] i64_ @calculatedFrom( ""CRC32""
-)
-    , }, x_y_z {
-char[] T
-// a // b
-// @lengthOf(
-,} ,} ,repeat  u64 Foo `a\`,
-    uint8
-uint8x,
-match
-//	t
-// trailing space 
-roots
-as chars {1
-    : _x ""a\""b"" :uint8x, 42 : metadata // " ++ [128512]%N ++ runes_of_ascii " emoji
-, // `tick` ""quote"" 'q'
-[// @lengthOf(
-""\n"" ,
-255]
-: zchar
-[ """ ++ [233]%N ++ runes_of_ascii "t" ++ [233]%N ++ runes_of_ascii """ ,3
-, 4294967296 ,// trailing space 
-0123456789 , ""x y"" ] : metadata[ // c
-""it's"" , ""// no comment""
-]  :Z9_
-    , }
-,	}
-    , } // a // b
-MetaData rootA	{ char[ 4294967296 ] msg_type,// @lengthOf(
-char[]  u128, uint64 a1 , int8 crc , Pad
-    msg_type `doc`
-,
-}
-//	t
-/// triple
-packet x_y_z
-    {@lengthOf( crc) match packetx as f32a	{ 0123456789:A
-,	00 :	u // @lengthOf(
-}, }
-")).
-Eval vm_compute in ("<<<M123>>>" ++ check (runes_of_ascii "
-packet _x{  leftPad `it's`
-    , match Logon as
-    matchKey { ""packet"" :  stringy,3
-: u
-    ,//
-""1"" : Pad }
-,  float32 Z9_ @lengthOf( i8i8	)
-    `" ++ [233]%N ++ runes_of_ascii "`
-    // " ++ [27880; 37322]%N ++ runes_of_ascii "
-    , @tag( 3 )match
-    //	t
-    As as Pad{
-"""" : chars
-, ""x y"" //
-: i64_	,  } ,  @calculatedFrom(""it's"" // c
-) @leftPad ( ' '
-) zchar[ 0123456789	] falsey , match	A as packetx
-{ [ 42]:
-matchKey // c
-, }// `tick` ""quote"" 'q'
-,@leftPad
-( ' ' )
-    match x
-    // c
-    as a1 { ""packet"" //x
-:
-    a1 , 10 : pack""{,}"" :  u8x// a // b
-, [ 007
-,00// trailing space 
-]
-:trueish ,
-    ""x y"" :pack //	t
-,
-""" ++ [233]%N ++ runes_of_ascii "t" ++ [233]%N ++ runes_of_ascii """
-:
-matchKey , } , @leftPad ( '0'
-) uint8x u
-    ,	zchar[
-    3 // a // b
-]
-    //	t
-    u ``
-    , @rightPad (
-    ' ') repeat _x
-`` , } MetaData Foo
-    {a1 Z9_ ,
-options1 T ,u32 u8x
-`crlf
-line`, metadata falsey,lengthOf
-x_y_z ,
-    } packet calculatedFrom { @tag( 3 ) string A,
-    match leftPad as a1	{//	t
-0123456789: calculatedFrom , }
-    ,
-    match crc//
-as
-    body {
-    00 : _x, } , o @calculatedFrom(	""x y"" )
+Eval vm_compute in ("<<<M317>>>" ++ check (runes_of_ascii "MetaData Logon
+    {
+    char[]u8x , matchKey pack,
+u8 int ``, char[ 007
+    ]
+msg_type ,
+BodyLength o	,string_ crc  `a\`, } options	{
+    //x
+    trueish = int16 Packet
+    = char MetaDataX=
+char[
 //
-// " ++ [128512]%N ++ runes_of_ascii " emoji
-,  } packet T { }  packet Logon { @leftPad
-(// @lengthOf(
-'\x00' )
-As @calculatedFrom(
-""a	b"" ) `line1
-line2`	, pack lengthOf // `tick` ""quote"" 'q'
-, } // `tick` ""quote"" 'q'")).
-Eval vm_compute in ("<<<M1607>>>" ++ check (runes_of_ascii "options {
-    FixedStringPadFromLeft = true;
-    FixedStringPadChar = '0';
+// trailing space 
+255 ] // a // b
+;}	root
+    //
+    packet a1 // packet A { u8 x, }
+{ } root packet // c
+MetaDataX{
+@lengthOf(_x)
+repeat
+Logon{// " ++ [128512]%N ++ runes_of_ascii " emoji
+o
+a1 , uint64
+    u128 ,  } ,zchar[007] chars
+    `line1
+line2` ,	repeat Header u128`doc`, // " ++ [128512]%N ++ runes_of_ascii " emoji
+@calculatedFrom(""1"")int
+trueish
+, char[0123456789
+    ]
+uint8x,
+i8 int	@lengthOf( msg_type )`line1
+line2`
+,
+    //x
+    @rightPad (
+) repeat f64 Z9_, metadata{ falsey @calculatedFrom(
+""abc""
+) , }, options1 @calculatedFrom( ""\n"" ) ,@calculatedFrom(	""\n"" )  match metadata
+    as Header {[
+    """" ,  ""1"" ] :	Foo //
+, [  ""\n""
+, 10
+,
+// " ++ [27880; 37322]%N ++ runes_of_ascii "
+// c
+""{,}"" ]
+: Logon
+,
+[
+    """"] :
+len
+, ""\n""  :// trailing space 
+msg_type , [ // c
+00 ]
+    : trueish , 10 : u8x, }
+    ,
+    } // " ++ [27880; 37322]%N ++ runes_of_ascii "
+root
+packet
+    BodyLength
+    { char[42
+] body  @calculatedFrom(
+    ""{,}"" ) `tab	here` // trailing space 
+,
+i32
+stringy  @calculatedFrom( """ ++ [28040; 24687]%N ++ runes_of_ascii """ ),  @tag(  0123456789	)
+@rightPad ( )@tag( 00 )  i16 a1 @lengthOf( pack// a // b
+) ,
+    @tag( 10
+)
+@leftPad ('\x00' ) // `tick` ""quote"" 'q'
+@calculatedFrom( ""a\""b"" ) repeat char[] // c
+stringy `
+`	, chars `say ""hi""`,
+@lengthOf(  a1 ) @leftPad( '0'  )
+    match Z9_
+as Header { 00
+    //	t
+    : As ,
+} // " ++ [27880; 37322]%N ++ runes_of_ascii "
+, o @calculatedFrom( """ ++ [128512]%N ++ runes_of_ascii """
+    )
+, @leftPad //	t
+(	)As// trailing space 
+@calculatedFrom( ""// no comment"") ,
+match x_y_z  as
+    BodyLength {
+""x y"" // `tick` ""quote"" 'q'
+:BodyLength
+, """ ++ [28040; 24687]%N ++ runes_of_ascii """  : packetx  , 0 :
+    Header ,
+    ""x y"" : matchKey
+    //	t
+    ,}, } // trailing space ")).
+Eval vm_compute in ("<<<M43>>>" ++ check (runes_of_ascii "packet asx {
+    leftPad@calculatedFrom( """ ++ [233]%N ++ runes_of_ascii "t" ++ [233]%N ++ runes_of_ascii """ ) , @leftPad
+(  '0')
+    // trailing space 
+    u8x As `crlf
+line` ,char[ 3 ] asx @calculatedFrom( ""{,}"" )  ,
+// @lengthOf(
+// trailing space 
+repeat u128  { int {packetx @calculatedFrom( ""packet"" )
+    ,	match
+T as  T
+{ ""a	b""
+: o , } , zchar[ 00
+    ]lengthOf
+`{ , }` ,
+/// triple
+// trailing space 
+char[] crc @calculatedFrom( ""abc"" )
+, } , Header	@calculatedFrom( """ ++ [233]%N ++ runes_of_ascii "t" ++ [233]%N ++ runes_of_ascii """ )
+`two words` ,
+repeat uint8 uint8x , repeat
+    //
+    char[0123456789 ]float`u8 x,`,} ,
+packetx x `say ""hi""` , @rightPad ( )
+i8i8
+    @calculatedFrom( ""x y""), @leftPad
+    ( ) BodyLength {repeat	int32
+_x ``  , i8 msg_type
+`doc` //
+, }, }
+// `tick` ""quote"" 'q'
+// packet A { u8 x, }
+packet body { }	packet	repeatCount{zchar[  3 ] Packet, @lengthOf( // @lengthOf(
+Header  )
+    i64
+// c
+// c
+Packet `two words` ,
+zchar[ 65535
+]calculatedFrom `tab	here`//	t
+, match x as leftPad
+    { ""// no comment"": rootA
+    , ""`tick`"" :
+o,
 }
-
-packet Leg {
-    InPrice0 {
-        repeat string clOrdID,
-        int16 msgKind,
-        zchar[5] Px,
-    },
-    i16 f1,
-    repeat f64 Side2,
-    string Acct,
+,// " ++ [128512]%N ++ runes_of_ascii " emoji
+zchar[ //	t
+3 ]
+// packet A { u8 x, }
+// " ++ [27880; 37322]%N ++ runes_of_ascii "
+u128 @calculatedFrom( ""{,}"" ) `{ , }`
+    ,
 }
-
-packet Cancel {
-    zchar[4] clOrdID,
-    string seqNo,
-    Leg,
-    @leftPad('0')
-    char[11] OrderId,
-}
-
-packet Quote {
-    repeat char[4] sym,
-    f64 OrderId,
-    repeat Leg,
-    repeat i64 f1,
-    int16 Note,
-    zchar[3] count,
-}
-
-root packet Ack {
-    @leftPad(' ')
-    char[10] sym,
-    InPx60 {
-        Cancel,
-        repeat char[1] f1,
-        string Tail,
-        repeat InNote55 {
-            int8 count,
-            f64 f1,
-            repeat Cancel,
-        },
-        char[] tag7,
-        repeat string msgKind,
-    },
-    u8 lastPx,
-    match lastPx as Body {
-        152 : Quote,
-        173 : Cancel,
-        4 : Leg,
-    },
-    u16 Ref @calculatedFrom(""CR\
-    C32""),
+    //	t
+    options { u = char[ 42 ] // " ++ [27880; 37322]%N ++ runes_of_ascii "
+metadata
+=""a\\""
+;  Logon =
+string ; Z9_ = u16
+;  }
+")).
+Eval vm_compute in ("<<<M1324>>>" ++ check (runes_of_ascii "// top
+options
+    // c0
+{ LittleEndian
+    // c2
+= false
+    // c4
+;
+    // c5
+StringPrefixLenType
+    // c6
+=
+    // c7
+u8
+    // c8
+; // c9
+ArrayPrefixLenType // c10
+= // c11a
+  // c11b
+u64
+    // c12
+; // c13a
+  // c13b
+FixedStringPadFromLeft
+    // c14
+= false ;
+    // c17
+FixedStringPadChar // c18a
+  // c18b
+=
+    // c19
+' ' // c20a
+  // c20b
+; }
+    // c22
+packet
+    // c23
+Reject // c24a
+  // c24b
+{ // c25a
+  // c25b
+repeat char[ 4 ] // c29a
+  // c29b
+seqNo // c30
+, // c31
+string // c32
+Px
+    // c33
+,
+    // c34
+} root packet Trade // c38a
+  // c38b
+{ // c39a
+  // c39b
+@rightPad ( // c41
+'0' // c42
+)
+    // c43
+char[
+    // c44
+2 // c45
+] msgKind // c47
+, // c48
+repeat
+    // c49
+f64
+    // c50
+price // c51a
+  // c51b
+, InAcct79
+    // c53
+{
+    // c54
+repeat // c55a
+  // c55b
+Reject
+    // c56
+,
+    // c57
+zchar[ // c58a
+  // c58b
+7 // c59
+] // c60a
+  // c60b
+OrderId
+    // c61
+,
+    // c62
+} // c63
+, // c64
+Reject // c65a
+  // c65b
+, // c66
+} ")).
+Eval vm_compute in ("<<<M107>>>" ++ check (runes_of_ascii "packet falsey { i64_ ,	charz  {
+match Packet  as Pad { ""\n"" :Packet
+    , ""// no comment"" // " ++ [128512]%N ++ runes_of_ascii " emoji
+:
+f32a// `tick` ""quote"" 'q'
+, [
+    /// triple
+    3  ,4294967296,
+    10 ,//
+7 , 10	]
+: u
+, // trailing space 
+""`tick`"": u8x
+,
+[ 7 , ""it's"" ]:Packet, 0 : len
+    //
+    , }
+    , }, /// triple
+@lengthOf(	f32a) char[ 3 ]options1
+    @lengthOf(
+Pad)
+, zchar[ 0123456789 ]// trailing space 
+T ``
+,
+} packet
+Pad
+{
+    // c
+    o roots `{ , }` // " ++ [128512]%N ++ runes_of_ascii " emoji
+, }packet f32a {
+_x//
+@calculatedFrom(	""x y"") //x
+,@tag( 65535
+) //	t
+char pack @lengthOf( zchar  ) ,repeat //
+int64 falsey  ,repeat len {match A
+    as rootA {[ 42,  ""\n"" ]:
+Z9_ , }
+,repeat i16
+A , repeat zchar[ 65535 ] tag `
+` ,
+f64 float
+    @lengthOf( f32a ) ``  ,
+// `tick` ""quote"" 'q'
+// packet A { u8 x, }
+} , x
+    u8x
+, @tag(  42	) repeat As Packet	, @lengthOf( Pad
+    )repeat
+    f64 rootA ,// @lengthOf(
 }")).
-Eval vm_compute in ("<<<M1123>>>" ++ check (runes_of_ascii "// top
+Eval vm_compute in ("<<<M362>>>" ++ check (runes_of_ascii "MetaData len
+{i8 _x
+    //	t
+    `` , zchar[ 00 ] tag , roots
+u
+    // `tick` ""quote"" 'q'
+    ,uint16 repeatCount , msg_type tag , } packet x_y_z
+    {
+metadata { i8i8 chars
+,i64
+chars , }
+, repeat u16 asx
+// a // b
+// a // b
+,
+}	packet u8x  { @lengthOf( BodyLength	)	@leftPad(
+// a // b
+//
+)float
+    /// triple
+    `
+` ,
+@calculatedFrom( ""// no comment"" ) float32 // " ++ [128512]%N ++ runes_of_ascii " emoji
+chars`// not a comment` , uint32
+u128 , @tag( 0 )
+int16	tag , leftPad
+    msg_type , // trailing space 
+pack
+    `tab	here` ,
+@lengthOf(
+repeatCount
+// c
+// c
+)zchar[ 4294967296 ] len, i32 packetx`tab	here` , calculatedFrom ,metadata @calculatedFrom(
+""// no comment"" ) , } options { // trailing space 
+options1 = 42 ; i64_
+    // a // b
+    = char[] falsey=
+// packet A { u8 x, }
+//	t
+42 // a // b
+Packet =
+true
+;}
+")).
+Eval vm_compute in ("<<<M1371>>>" ++ check (runes_of_ascii "// top
+options // c0
+{ LittleEndian // c2
+= true // c4a
+  // c4b
+; // c5
+} // c6a
+  // c6b
+packet // c7
+Logon
+    // c8
+{
+    // c9
+u8 // c10a
+  // c10b
+x // c11a
+  // c11b
+, string // c13a
+  // c13b
+user // c14
+, // c15a
+  // c15b
+} packet // c17a
+  // c17b
+Logout {
+    // c19
+u16
+    // c20
+reason
+    // c21
+, // c22
+} // c23a
+  // c23b
+packet
+    // c24
+Empty // c25a
+  // c25b
+{ } root // c28
+packet
+    // c29
+Frame // c30a
+  // c30b
+{
+    // c31
+u16
+    // c32
+MsgType ,
+    // c34
+u8 // c35a
+  // c35b
+BodyLen // c36a
+  // c36b
+@lengthOf( Body // c38
+) , // c40a
+  // c40b
+u8
+    // c41
+flags // c42a
+  // c42b
+, // c43
+Logon
+    // c44
+Body
+    // c45
+, // c46
+u32 trailer // c48a
+  // c48b
+,
+    // c49
+} ")).
+Eval vm_compute in ("<<<M6>>>" ++ check (runes_of_ascii "// `tick` ""quote"" 'q'
+packet As
+{ @rightPad ( '0' ) stringy
+@lengthOf( calculatedFrom),	@tag( 10	) string uint8x `
+` ,	match body // packet A { u8 x, }
+as uint8x {
+    ""it's"" :  rootA , [ 00 ] : leftPad
+    ,
+42 :	MetaDataX , ""a	b"" :  calculatedFrom
+    255
+:trueish	} , repeat	i64 Logon `tab	here` , } options {crc
+= '\x00' ;}
+packet x { @calculatedFrom(
+""a\\""
+    )
+@tag( 42
+) @leftPad	( '0' // c
+) match o	as /// triple
+x_y_z {// packet A { u8 x, }
+[ """ ++ [128512]%N ++ runes_of_ascii """// trailing space 
+, ""x y"" , // c
+0123456789 ,""CRC32"" ,
+//	t
+// packet A { u8 x, }
+""it's""
+, 007
+, 3, 007 // @lengthOf(
+] :	Packet // c
+[	255, ""x y""
+    ] :x_y_z
+    ,
+} , }
+// trailing space 
+")).
+Eval vm_compute in ("<<<M260>>>" ++ check (runes_of_ascii "packet metadata{ @rightPad
+    (	) zchar[
+//	t
+// `tick` ""quote"" 'q'
+0123456789] i64_
+    // @lengthOf(
+    @calculatedFrom( ""\n"" ) , @leftPad (
+    ' '// " ++ [27880; 37322]%N ++ runes_of_ascii "
+) zchar[ // `tick` ""quote"" 'q'
+255
+]
+    MetaDataX `{ , }`// a // b
+, @rightPad (
+' ' )@calculatedFrom(""abc"" ) // " ++ [128512]%N ++ runes_of_ascii " emoji
+@lengthOf(
+matchKey
+// `tick` ""quote"" 'q'
+// `tick` ""quote"" 'q'
+)
+repeat char[ 42 ] packetx // packet A { u8 x, }
+`" ++ [233]%N ++ runes_of_ascii "` ,  trueish@calculatedFrom( ""packet"" )
+`a\` , matchKey int `" ++ [28040; 24687; 31867; 22411]%N ++ runes_of_ascii "` ,	@tag(
+    // c
+    0
+) len{ char[65535 ] Header,
+}
+,@lengthOf( f32a ) zchar[	10  ]
+    trueish `crlf
+line` ,  }
+")).
+Eval vm_compute in ("<<<M1374>>>" ++ check (runes_of_ascii "packet Sub { // c2a
+  // c2b
+u8 a
+    // c4
+, // c5
+@calculatedFrom( ""CRC16"" // c7
+)
+    // c8
+i32 // c9a
+  // c9b
+SubSum
+    // c10
+, }
+    // c12
+root packet // c14
+Frame // c15a
+  // c15b
+{ // c16a
+  // c16b
+u16 // c17a
+  // c17b
+MsgType // c18a
+  // c18b
+, // c19
+u16 BodyLen // c21a
+  // c21b
+@lengthOf( // c22
+Body // c23
+) // c24
+, Sub Body
+    // c27
+, // c28
+string note // c30
+,
+    // c31
+@calculatedFrom( // c32
+""CRC16"" ) // c34
+i32 // c35
+Checksum // c36
+, u8
+    // c38
+tail // c39a
+  // c39b
+,
+    // c40
+} // c41
+")).
+Eval vm_compute in ("<<<M1235>>>" ++ check (runes_of_ascii "// top
 options
     // c0
 {
     // c1
-uint8x
+f32a
     // c2
 =
     // c3
-007
-    // c4
-;
-    // c5
-lengthOf
-    // c6
-=
-    // c7
-i8
-    // c8
-;
-    // c9
-}
-    // c10
-packet
-    // c11
-i64_
-    // c12
-{
-    // c13
-@calculatedFrom(
-    // c14
-""1""
-    // c15
-)
-    // c16
-@tag(
-    // c17
-3
-    // c18
-)
-    // c19
-@lengthOf(
-    // c20
-rootA
-    // c21
-)
-    // c22
-repeat
-    // c23
-int8
-    // c24
-Packet
-    // c25
-`u8 x,`
-    // c26
-,
-    // c27
-}
-    // c28
-root
-    // c29
-packet
-    // c30
-stringy
-    // c31
-{
-    // c32
-@rightPad
-    // c33
-(
-    // c34
-' '
-    // c35
-)
-    // c36
-repeat
-    // c37
-char[
-    // c38
-10
-    // c39
-]
-    // c40
-repeatCount
-    // c41
-,
-    // c42
-@tag(
-    // c43
-255
-    // c44
-)
-    // c45
-float64
-    // c46
-msg_type
-    // c47
-@calculatedFrom(
-    // c48
-""packet""
-    // c49
-)
-    // c50
-,
-    // c51
-}
-    // c52
-")).
-Eval vm_compute in ("<<<M1914>>>" ++ check (runes_of_ascii "  // top
-  root 
-
-    // c0
-		packet
-	// c1
-	_x 
-// c2
-	{ 
-	// c3
-	match 
-    // c4
-	Foo
-    // c5
-  as 
-    // c6
-
-Z9_  
-  // c7
-    {
-    // c8
-	""a	b"" 
-        // c9
-:
-	// c10
-    Pad
-
-// c11
-	,  
-      // c12
-	} 
-	    // c13
-    	, 
-    // c14
-repeat
-
-    // c15
-		x
-// c16
-`line1
-line2`
-    // c17
-	, 
-    // c18
-    	@rightPad 
-      // c19
-    ( 
-      // c20
-
-	' '
-
-    // c21
-
-	) 
-// c22
-    	@calculatedFrom(
-
-    // c23
-    ""a\\""
-    // c24
-  ) 
-  // c25
-    	metadata
-    // c26
-
-  MetaDataX
-// c27
-
-, 
-
-    // c28
-@tag(
-
-// c29
 0
-    // c30
-  )
-        // c31
-Logon
-        // c32
-	int
-// c33
-``
-	    // c34
-
-,  
-      // c35
-
+    // c4
 }
-    // c36
-  options 
-  // c37
-		{
-	// c38
-T
-	    // c39
-    = 
-  // c40
-  '\x00' 
-// c41
-      }
-        // c42
- 
-")).
-Eval vm_compute in ("<<<M4>>>" ++ check (runes_of_ascii "packet
-    // " ++ [128512]%N ++ runes_of_ascii " emoji
-    u128
-{ repeat char[
-// trailing space 
-// packet A { u8 x, }
-65535 ] float ,
-}
-options  { f32a
-= char[] ; } packet// trailing space 
-_x { @rightPad ('0' ) // packet A { u8 x, }
-@lengthOf(i8i8) @lengthOf(lengthOf
-)  repeat	Z9_//x
-`crlf
-line`, string_ {
-// `tick` ""quote"" 'q'
-// c
-zchar[7
-]x_y_z , Header x
-`line1
-line2` ,
-    }, //	t
-@leftPad ( )
-    match float
-as	x_y_z
-{ """ ++ [28040; 24687]%N ++ runes_of_ascii """ : metadata, 007 :
-    A,00 : falsey
-    , 0123456789  : Foo // trailing space 
-,0123456789
-:
-    zchar
-, } ,@calculatedFrom( ""1"" )
-@tag(
-/// triple
-/// triple
-0	) char[
-00 ] options1	, } packet Pad{
-u16
-body
-@lengthOf( stringy // c
-), } options { BodyLength ='0'msg_type =""a\""b"" ; }
-
-")).
-Eval vm_compute in ("<<<M87>>>" ++ check (runes_of_ascii "root packet matchKey{ match	Foo as Z9_ {// c
-[ ""x y"" , ""1"" ,
-    007
-, 7 ]: pack,
-""`tick`"" :
-u128 ,""a	b"" :msg_type,[
-//
-//
-00 ,	65535
-] : a1, ""it's"" :Foo
-    , // " ++ [128512]%N ++ runes_of_ascii " emoji
-[ //x
-""""
-] : u, } ,
-} packet calculatedFrom // c
-{msg_type {
-    T @calculatedFrom( ""\n"" ) ,float64 i8i8, As`
-`, u32 rootA @lengthOf(
-// c
-// `tick` ""quote"" 'q'
-float
-) ,}
-, }
-    packet
-    // " ++ [27880; 37322]%N ++ runes_of_ascii "
-    x_y_z
-{@tag( //x
-0 ) i64_
-    // " ++ [27880; 37322]%N ++ runes_of_ascii "
-    @lengthOf(
-    //
-    MetaDataX
-) ,	}packet A { @calculatedFrom( ""a\\"" )@calculatedFrom(""abc"" ) _x
-u	`say ""hi""` ,
-    } options
-    // `tick` ""quote"" 'q'
-    { // trailing space 
-metadata = ""a\\"" ; // a // b
-}")).
-Eval vm_compute in ("<<<M1339>>>" ++ check (runes_of_ascii "  options
-
-{ ArrayPrefixLenType
-
-    =  u64
-;FixedStringPadFromLeft
-	=true
-
-;
-    FixedStringPadChar  = '0'
-
-;
-
-}
-
+    // c5
 packet
-Quote{	} 
-packet  Ack
-
-    { repeat 
-InNote66
-    {
-    u8 
-pad0  ,
-    }
-    ,
-    }	packet 
-Reject 
+    // c6
+trueish
+    // c7
 {
-}root
-    packet
-    Order{Quote
-
-    ,repeat
-	Reject 
-, string
-    venue
-
-    ,
-
-    string
-
-seqNo , 
-uint32
-
-    Ref , 
-u16 lastPx  ,
-u32 
-clOrdID 
-@lengthOf(  Body  ) 
-,
-match
-lastPx as	Body{
-    190 
-:Reject
-
-    ,
-186:Quote
-    ,
-	22
-:	Ack
-,
+    // c8
 }
+    // c9
+MetaData
+    // c10
+_x
+    // c11
+{
+    // c12
+char[
+    // c13
+0123456789
+    // c14
+]
+    // c15
+zchar
+    // c16
 ,
-    u16  Flags @calculatedFrom(
-
-""CRC32""
-	)
-
-    , }")).
-Eval vm_compute in ("<<<M1119>>>" ++ check (runes_of_ascii "// top
-root // c0
-packet // c1
-_x // c2
-{ // c3
-match // c4
-Foo // c5
-as // c6
-Z9_ // c7
-{ // c8
-""a	b"" // c9
-: // c10
-Pad // c11
-, // c12
-} // c13
-, // c14
-repeat // c15
-x // c16
-`line1
-line2` // c17
-, // c18
-@rightPad // c19
-( // c20
-' ' // c21
-) // c22
-@calculatedFrom( // c23
-""a\\"" // c24
-) // c25
-metadata // c26
-MetaDataX // c27
-, // c28
-@tag( // c29
-0 // c30
-) // c31
-Logon // c32
-int // c33
-`` // c34
-, // c35
-} // c36
-options // c37
-{ // c38
-T // c39
-= // c40
-'\x00' // c41
-} // c42
-")).
-Eval vm_compute in ("<<<M1604>>>" ++ check (runes_of_ascii "// @lengthOf(
-  MetaData
-	leftPad{
-	string 
-options1  `say ""hi""`	, 
-	    //x
-		int16
-	metadata  `" ++ [233]%N ++ runes_of_ascii "`  , f32
-i64_
-
-//	t
-// c
-
-	,
-
-    }
-
-packet  trueish
-    {// c
-MetaDataX
-
-    roots
-    ,
-_x 
-a1,
-
-match	packetx
-as
-	charz { 
-0:  // c
-    	f32a ,}	//
-      , repeat
-body 
-Logon
-, }
-options
-    {
+    // c17
+string
+    // c18
+crc
+    // c19
+,
+    // c20
+char[
+    // c21
+1
+    // c22
+]
+    // c23
+options1
+    // c24
+,
+    // c25
+uint8
+    // c26
 repeatCount
-=
-
-    int8
-
-    charz // `tick` ""quote"" 'q'
-	  = char[]
-
-    ;	msg_type
-= ""it's""
-    u=007 Z9_= uint32 
-    //
-    	}
-")).
-Eval vm_compute in ("<<<M126>>>" ++ check (runes_of_ascii "
-packet T// c
-{ @tag(  00 )repeat char[]	charz
-`
-` , char[0123456789 ]BodyLength
-    @lengthOf( //x
-Z9_
-    )
-    `u8 x,`
+    // c27
 ,
-}	MetaData
-crc {
-float64
-int `" ++ [28040; 24687; 31867; 22411]%N ++ runes_of_ascii "`// a // b
-,	As Logon `` , // `tick` ""quote"" 'q'
-uint8 // " ++ [27880; 37322]%N ++ runes_of_ascii "
-u
-, u32  stringy `
-`,
-// a // b
-//	t
-uint64 uint8x , asx
-calculatedFrom	,//x
-} MetaData chars { char[ 1
-    // `tick` ""quote"" 'q'
-    ] //	t
-chars ,
-    } // trailing space ")).
-Eval vm_compute in ("<<<M1378>>>" ++ check (runes_of_ascii "
-
-  options {
-LittleEndian	=
-
-    true
-;
-
-} 
-packet
-    Logon {
-u8	x	, 
+    // c28
 }
+    // c29
+")).
+Eval vm_compute in ("<<<M1493>>>" ++ check (runes_of_ascii "MetaData float {int16 
+  // c
+  // " ++ [128512]%N ++ runes_of_ascii " emoji
+		chars , int8
+	_x 
+,char
+	charz ,
+Header  u8x
+
+    ,
+u16 
+_x
+	, 
+    // @lengthOf(
+
+	x_y_z repeatCount,
+	}
+
+packet	Foo	{
+    @tag(//	t
+1
+)
+string	Logon
+    `
+`	,
+	}	//x
+	options{ zchar  = ' ' trueish= 	 //x
+  """"
+
+    leftPad = 255
+; 
+}
+    root
 	packet
-    Logout {
-    u16
-reason
-
-,  }	root
-    packet
-    Frame { i8 
-Kind ,i8
-
-    Kind2
-,
-match
-	Kind
-    as	Body { 1 
-: Logon , [
-2
-
-    ,	3
-
+    options1
+    {u64
+    packetx// `tick` ""quote"" 'q'
+@calculatedFrom(""// no comment"")
+``
     ,
-
-    4  ]
-:
-	Logout,  100
-    :  Logon ,
-}
-
-    ,
-
-match
-
-    Kind2  as
-
-    Trailer
-	{
-
-    0 :	Logout
-	, }, 
 }
 ")).
-Eval vm_compute in ("<<<M1749>>>" ++ check (runes_of_ascii "packet Pad {
-    u32 i64_ @lengthOf(u8x) `tab	here`,
-    T,
-    @tag(1)
-    @calculatedFrom(""CRC32"")
-    @leftPad()
-    match stringy as lengthOf {
-        [
-            255, 7, ""CRC32"", ""a	b"", """ ++ [233]%N ++ runes_of_ascii "t" ++ [233]%N ++ runes_of_ascii """,
-            ""a\""b"", ""\n""
-        ] : falsey,
-        /// triple
-    },
-    string i8i8 @calculatedFrom(""" ++ [128512]%N ++ runes_of_ascii """),
-    packetx,
-}// c")).
-Eval vm_compute in ("<<<M205>>>" ++ check (runes_of_ascii "  root packet
-    chars{ string T `say ""hi""`
-, @tag(
-    1  ) body { repeat o { f64 Packet @calculatedFrom( ""a\\"") ,  } , }	,
-} packet pack
-// @lengthOf(
-// a // b
-{
-@tag( 4294967296 // `tick` ""quote"" 'q'
-) repeat char[]
-    Logon
-    // trailing space 
-    , repeat
-BodyLength len ,
-    // c
-    }")).
+Eval vm_compute in ("<<<M1453>>>" ++ check (runes_of_ascii "
+packet	zchar
+
+    {
+
+    @calculatedFrom(  ""packet"" )
+@lengthOf(  body
+)
+@lengthOf(A ) repeat /// triple
+u128{ f32a
+chars `` 
+,
+	repeat  x_y_z  `tab	here`
+
+    ,  // c
+		}
+	,// " ++ [27880; 37322]%N ++ runes_of_ascii "
+  repeat Logon 
+{  // " ++ [27880; 37322]%N ++ runes_of_ascii "
+  u
+
+    @calculatedFrom( // `tick` ""quote"" 'q'
+""// no comment"")//
+    	`two words`  ,
+
+    char  u8x
+
+, uint32 uint8x 
+,
+	} , int8 asx 
+`` 
+, 
+}
+")).
+Eval vm_compute in ("<<<M30>>>" ++ check (runes_of_ascii "packet
+repeatCount
+    {@calculatedFrom(	""abc"" ) zchar[
+    // @lengthOf(
+    0
+] // `tick` ""quote"" 'q'
+MetaDataX  `
+`	, string_
+@calculatedFrom( ""1""
+    ) ,	match string_
+    as msg_type{ [// a // b
+65535	,// a // b
+""a	b""
+    , 7
+    ,	255 ]:
+matchKey , 10 :
+    options1 , 3 :Logon
+    , } ,
+    // " ++ [27880; 37322]%N ++ runes_of_ascii "
+    packetx `a\` ,}
+")).
+Eval vm_compute in ("<<<M1799>>>" ++ check (runes_of_ascii "  options{ LittleEndian
+	=
+    true;	} packet
+
+Logon
+    {	u8 x 
+,
+
+    }
+
+packet
+
+Logout {
+
+u16
+reason,  }root  packet
+Frame
+
+    {
+    i8
+	Kind
+,i8 
+Kind2
+, match
+Kind
+as  Body{  1
+	: 
+Logon ,[2 ,
+3 ,4 
+] :
+Logout
+,	100: Logon	,
+
+}
+    ,
+	match
+Kind2 as Trailer{ 0
+:
+Logout
+
+,
+
+    }
+, }")).
 Eval vm_compute in ("<<<M94>>>" ++ check (runes_of_ascii "MetaData chars{ uint64	A, msg_type asx
     // c
     , Z9_  a1,
@@ -823,113 +761,76 @@ repeatCount// c
     charz // c
 ,
 } //x")).
-Eval vm_compute in ("<<<M1839>>>" ++ check (runes_of_ascii "packet Header {
-    @calculatedFrom(""a	b"")
-    char[255] falsey `tab	here`,
-    int8 u `doc`,
-    float32 lengthOf @calculatedFrom(""a	b""),
-    @rightPad(' ')
-    @tag(3)
-    float64 asx,
-    int8 metadata @lengthOf(zchar),
-    Pad f32a,
+Eval vm_compute in ("<<<M97>>>" ++ check (runes_of_ascii "packet
+i8i8 { repeat char[	00 ] Pad
+    `a\` ,
+@leftPad
+    (
+'\x00') string	a1@lengthOf(tag )``, float64
+    u128 @calculatedFrom( ""1""
+)  ,	@lengthOf( x
+    )
+    u128 @lengthOf( tag )
+`" ++ [28040; 24687; 31867; 22411]%N ++ runes_of_ascii "` , int64 u ,
+A//x
+T
+    `say ""hi""`
+, }
+")).
+Eval vm_compute in ("<<<M1824>>>" ++ check (runes_of_ascii "packet roots {
+    @calculatedFrom(""a\\"")
+    @lengthOf(packetx)
+    match repeatCount as body {
+        007 : lengthOf,
+        00 : zchar,
+    },
+    char[] chars `say ""hi""`,
+}
+
+MetaData packetx {
 }")).
-Eval vm_compute in ("<<<M1655>>>" ++ check (runes_of_ascii "packet A {
-    match k as n {
-        ""\
-                "" : B,
-        [1, ""\
-                ""] : C,
-        [
-            1, 2, 3, 4, 5,
-            ""\
-                        ""
-        ] : D,
+Eval vm_compute in ("<<<M1293>>>" ++ check (runes_of_ascii "packet A {
+    u8 a,
+}
+packet B {
+    u16 b,
+}
+root packet P {
+    u8 K1,
+    u8 K2,
+    match K1 as M1 {
+        1 : A,
+    },
+    match K2 as M2 {
+        1 : B,
+    },
+}
+")).
+Eval vm_compute in ("<<<M73>>>" ++ check (runes_of_ascii "root
+    packet As { //
+char	charz @lengthOf( packetx
+) `{ , }`,//
+char[0123456789
+]
+MetaDataX
+// " ++ [27880; 37322]%N ++ runes_of_ascii "
+// `tick` ""quote"" 'q'
+`it's` , zchar[
+    7]o `u8 x,`
+, }")).
+Eval vm_compute in ("<<<M1812>>>" ++ check (runes_of_ascii "MetaData tag {
+    body Packet,
+    int16 body,
+    f32a uint8x,
+}
+
+packet falsey {
+    x {
+        char[7] lengthOf,
+        char[] o `say ""hi""`,
     },
 }")).
-Eval vm_compute in ("<<<M1513>>>" ++ check (runes_of_ascii "
-
-  root
-	packet MetaDataX
-    { repeat
-u8x  len
-`" ++ [28040; 24687; 31867; 22411]%N ++ runes_of_ascii "` , As {u8x
-,
-}	,  int
-
-f32a`" ++ [233]%N ++ runes_of_ascii "`
-
-,  @lengthOf(
-
-    float	) Z9_
-
-    // @lengthOf(
-
-// trailing space 
-    `a\` ,}
-")).
-Eval vm_compute in ("<<<M1615>>>" ++ check (runes_of_ascii "  packet
-A
-    {
-
-match 
-k
-as
-n{
-[
-""a"" ,	""bb"" ,
-""c c""
-
-,""d""
-,
-""e"",	""f""	,
-    ""g""
-,
-
-    ""h""	,""i""
-, ""j""
-    ,""k"" , ""l""]
-    :
-    B ,
-	2
-:
-    C  },
-	}")).
-Eval vm_compute in ("<<<M1646>>>" ++ check (runes_of_ascii "  packet
-	A{
-
-    match
-
-    k as
-	n
-	{
-[
-    1
-    , 22  , 
-007
-,
-
-    4
-    ,
-5
-
-    ,  66
-
-,
-
-7
-,8  ,  9
-
-,
-10 ,	11
-] : B
-	2 : C
-    }
-,
-	}
-
-")).
-Eval vm_compute in ("<<<M486>>>" ++ check (runes_of_ascii "packet uint8x
+Eval vm_compute in ("<<<M506>>>" ++ check (runes_of_ascii "packet uint8x
 { match pack
     as msg_type	{
     0123456789 :	float
@@ -937,12 +838,12 @@ Eval vm_compute in ("<<<M486>>>" ++ check (runes_of_ascii "packet uint8x
 ,
 } packet //	t
 a1
-    { } options { {packetx
-    = '\x00'	; u128= ""a	b""  ; }
+    { } options {packetx
+    = '\x00'	; ; u128= ""a	b""  ; }
 ")).
-Eval vm_compute in ("<<<M397>>>" ++ check (runes_of_ascii "packet {
-uint8x match pack
-    as msg_type	{
+Eval vm_compute in ("<<<M417>>>" ++ check (runes_of_ascii "packet uint8x
+{ match pack
+    msg_type as	{
     0123456789 :	float
 }
 ,
@@ -951,242 +852,275 @@ a1
     { } options {packetx
     = '\x00'	; u128= ""a	b""  ; }
 ")).
-Eval vm_compute in ("<<<M1241>>>" ++ check (runes_of_ascii "// top
-root
-    // c0
-packet // c1
-P // c2a
-  // c2b
-{ // c3
-char
-    // c4
-c // c5a
-  // c5b
-, // c6a
-  // c6b
-u8
-    // c7
-x // c8
-, // c9
-} // c10
-")).
-Eval vm_compute in ("<<<M1908>>>" ++ check (runes_of_ascii "
-MetaData
-	leftPad { chars
-	MetaDataX
-
-    ,	}packet
-	repeatCount
-{
-char[	255
-    ]uint8x`" ++ [233]%N ++ runes_of_ascii "` 
-,// c
-	}
-    MetaData
-
-    pack {
-	As
-Foo
-
+Eval vm_compute in ("<<<M425>>>" ++ check (runes_of_ascii "packet uint8x
+{ match pack
+    as msg_type	
+    0123456789 :	float
+}
 ,
+} packet //	t
+a1
+    { } options {packetx
+    = '\x00'	; u128= ""a	b""  ; }
+")).
+Eval vm_compute in ("<<<M1818>>>" ++ check (runes_of_ascii "packet
+	u128	//x
+
+  {  @calculatedFrom(
+""x y""
+) 	 // `tick` ""quote"" 'q'
+  @rightPad( ' ' )
+
+    char[ 42] 
+Header @calculatedFrom( ""abc"" 
+),
 }
 ")).
-Eval vm_compute in ("<<<M705>>>" ++ check (runes_of_ascii "// @lengthOf(
+Eval vm_compute in ("<<<M657>>>" ++ check (runes_of_ascii "// @lengthOf(
 packet i8i8 { u128 o , }
 options { MetaDataX = true;
     BodyLength =""packet"" x_y_z= 007
-crc //x
-= = ""abc"" ;
+?crc //x
+= ""abc"" ;
     msg_type =
 i16 }")).
-Eval vm_compute in ("<<<M720>>>" ++ check (runes_of_ascii "// @lengthOf(
+Eval vm_compute in ("<<<M185>>>" ++ check (runes_of_ascii "root packet lengthOf{ @leftPad
+    (
+' '// c
+)
+repeat char MetaDataX
+,
+}MetaData
+Pad {
+msg_type rootA// trailing space 
+`// not a comment`, }")).
+Eval vm_compute in ("<<<M697>>>" ++ check (runes_of_ascii "// @lengthOf(
 packet i8i8 { u128 o , }
-options { MetaDataX = true;
-    BodyLength =""packet"" =x_y_z 007
+, { MetaDataX = true;
+    BodyLength =""packet"" x_y_z= 007
 crc //x
 = ""abc"" ;
     msg_type =
 i16 }")).
-Eval vm_compute in ("<<<M98>>>" ++ check (runes_of_ascii "
-packet stringy {
-}
-MetaData u8x	{ zchar[ 65535
-    // a // b
-    ] Pad ,stringy string_
-`u8 x,` ,	u8 lengthOf`
-` , char[ 255
-] pack , } 	 ")).
-Eval vm_compute in ("<<<M719>>>" ++ check (runes_of_ascii "// @lengthOf(
-packet i8i8 { u128 o , }
-options { MetaDataX = true;
-     =""packet"" x_y_z= 007
-crc //x
-= ""abc"" ;
-    msg_type =
-i16 }")).
-Eval vm_compute in ("<<<M937>>>" ++ check (runes_of_ascii "packet A {
-    u16 len @lengthOf(body) `a
-    b
-  c`,
-    u32 crc @calculatedFrom(""CRC32"") `a
-    b
-  c`,
+Eval vm_compute in ("<<<M1449>>>" ++ check (runes_of_ascii "packet A {
+    u16 len @lengthOf(body) `tab
+        	x`,
+    u32 crc @calculatedFrom(""CRC32"") `tab
+        	x`,
     string body,
 }")).
-Eval vm_compute in ("<<<M1147>>>" ++ check (runes_of_ascii "MetaData leftPad { // c
-chars MetaDataX , } packet repeatCount { char[ 255 ] uint8x `" ++ [233]%N ++ runes_of_ascii "` , } MetaData pack { As Foo , }")).
-Eval vm_compute in ("<<<M1179>>>" ++ check (runes_of_ascii "MetaData leftPad { chars MetaDataX , } packet repeatCount { char[ 255 ] uint8x `" ++ [233]%N ++ runes_of_ascii "` , } MetaData pack // c
-{ As Foo , }")).
-Eval vm_compute in ("<<<M136>>>" ++ check (runes_of_ascii "// a // b
-options { // " ++ [128512]%N ++ runes_of_ascii " emoji
-calculatedFrom=
-'\x00'	; BodyLength = true ;asx // packet A { u8 x, }
-= true }")).
-Eval vm_compute in ("<<<M49>>>" ++ check (runes_of_ascii "options  { f32a = true;  metadata =""CRC32"" ;
-body // " ++ [27880; 37322]%N ++ runes_of_ascii "
-=
-char ; A =
-float64	;
-} MetaData
-    rootA { }")).
-Eval vm_compute in ("<<<M160>>>" ++ check (runes_of_ascii "
-MetaData zchar { roots
-A , char[] falsey `line1
-line2` ,
-// " ++ [128512]%N ++ runes_of_ascii " emoji
-// @lengthOf(
-int crc ,	} //	t")).
-Eval vm_compute in ("<<<M876>>>" ++ check (runes_of_ascii "packet A {
-  match k as n {
-    [""a"", ""bb"", 007, ""d"", ""e"", 66, ""g"", ""h"", 9] : B
-    2 : C
-  },
+Eval vm_compute in ("<<<M1543>>>" ++ check (runes_of_ascii "packet B {
+    u8 a,
+}
+
+root packet P {
+    u8 K,
+    u8 L @lengthOf(Body),
+    match K as Body {
+        1 : B,
+    },
 }")).
-Eval vm_compute in ("<<<M578>>>" ++ check (runes_of_ascii "
+Eval vm_compute in ("<<<M1163>>>" ++ check (runes_of_ascii "MetaData leftPad { chars MetaDataX , } packet repeatCount { char[ // c
+255 ] uint8x `" ++ [233]%N ++ runes_of_ascii "` , } MetaData pack { As Foo , }")).
+Eval vm_compute in ("<<<M1474>>>" ++ check (runes_of_ascii "
+packet A	{	match	k
+
+as n
+{ [
+
+""a""  ,
+""bb""
+    , 
+""c c"" ,
+
+""d"" ,
+
+    ""e"" ,""f""
+	,
+	""g"" , ""h""]
+
+:  B,2 
+:
+	C} ,
+}
+")).
+Eval vm_compute in ("<<<M1244>>>" ++ check (runes_of_ascii "// top
+root // c0
+packet // c1
+P { // c3
+repeat // c4
+char cs
+    // c6
+, u8 x // c9a
+  // c9b
+, }
+    // c11
+")).
+Eval vm_compute in ("<<<M535>>>" ++ check (runes_of_ascii "packet uint8x
+{ match pack
+    as msg_type	{
+    0123456789 :	float
+}
+,
+} packet //	t
+a1
+    { } opti")).
+Eval vm_compute in ("<<<M484>>>" ++ check (runes_of_ascii "packet uint8x
+{ match pack
+    as msg_type	{
+    0123456789 :	float
+}
+,
+} packet //	t
+a1
+    { }")).
+Eval vm_compute in ("<<<M1267>>>" ++ check (runes_of_ascii "packet B {
+    u8 a,
+    string s,
+}
+root packet P {
+    u16 L @lengthOf(B),
+    B,
+    u8 t,
+}
+")).
+Eval vm_compute in ("<<<M642>>>" ++ check (runes_of_ascii "
 packet
-    asx {match u128 as as lengthOf
+    asx {match u128 as lengthOf
+{'1'
+//	t
+// `tick` ""quote"" 'q'
+255 : x ,
+    } ,	}")).
+Eval vm_compute in ("<<<M638>>>" ++ check (runes_of_ascii "
+packet
+    asx {match u128 as leng""thOf
 {
 //	t
 // `tick` ""quote"" 'q'
 255 : x ,
     } ,	}")).
-Eval vm_compute in ("<<<M631>>>" ++ check (runes_of_ascii "
+Eval vm_compute in ("<<<M597>>>" ++ check (runes_of_ascii "
 packet
     asx {match u128 as lengthOf
 {
 //	t
 // `tick` ""quote"" 'q'
-255 %: x ,
+255  x ,
     } ,	}")).
-Eval vm_compute in ("<<<M562>>>" ++ check (runes_of_ascii "
+Eval vm_compute in ("<<<M621>>>" ++ check (runes_of_ascii "
 packet
-    asx match u128 as lengthOf
+    asx {match u128 as lengthOf
 {
 //	t
 // `tick` ""quote"" 'q'
 255 : x ,
-    } ,	}")).
-Eval vm_compute in ("<<<M1567>>>" ++ check (runes_of_ascii "packet A {
-    Inner {
-        match k as n {
-            [1] : B,
-        },
+    }")).
+Eval vm_compute in ("<<<M847>>>" ++ check (runes_of_ascii "packet A {
+  match k as n {
+    [1, 22, ""c c"", 4, 5, ""f"", 7] : B,
+    2 : C
+  },
+}")).
+Eval vm_compute in ("<<<M835>>>" ++ check (runes_of_ascii "packet A {
+  match k as n {
+    [1, 22, ""c c"", 4, 5, ""f""] : B
+    2 : C
+  },
+}")).
+Eval vm_compute in ("<<<M821>>>" ++ check (runes_of_ascii "packet A {
+  match k as n {
+    [1, 22, ""c c"", 4, 5] : B,
+    2 : C
+  },
+}")).
+Eval vm_compute in ("<<<M814>>>" ++ check (runes_of_ascii "packet A {
+  match k as n {
+    [1, 22, 007, 4, 5] : B
+    2 : C
+  },
+}")).
+Eval vm_compute in ("<<<M1098>>>" ++ check (runes_of_ascii "packet A {
+    match k as n {
+        1 : B,
+        // c
     },
 }")).
-Eval vm_compute in ("<<<M469>>>" ++ check (runes_of_ascii "packet uint8x
-{ match pack
-    as msg_type	{
-    0123456789 :	float
-}
-,
-} packet")).
-Eval vm_compute in ("<<<M1726>>>" ++ check (runes_of_ascii "
-packet 
-A  {  match 
-k
-	as
-n
+Eval vm_compute in ("<<<M1534>>>" ++ check (runes_of_ascii "packet A
+    {match 
+k as
+    n
 
 {
-[  1, 22]
-: B
+1
+: 
+B
 
-    2 : C
-	}
+, 
+	// c
+}  ,
 
-    ,
 }
 ")).
-Eval vm_compute in ("<<<M827>>>" ++ check (runes_of_ascii "packet A {
+Eval vm_compute in ("<<<M773>>>" ++ check (runes_of_ascii "packet A {
   match k as n {
-    [1, 22, 007, 4, 5, 66] : B
+    [1] : B,
     2 : C
   },
 }")).
-Eval vm_compute in ("<<<M454>>>" ++ check (runes_of_ascii "packet uint8x
-{ match pack
-    as msg_type	{
-    0123456789 :	float
+Eval vm_compute in ("<<<M963>>>" ++ check (runes_of_ascii "MetaData M {
+    u8 x `tab
+	x`,
+    T t `tab
+	x`,
 }")).
-Eval vm_compute in ("<<<M851>>>" ++ check (runes_of_ascii "packet A { Inner { match k as n { [1,22,007,4,5,66,7] : B, }, }, }")).
-Eval vm_compute in ("<<<M783>>>" ++ check (runes_of_ascii "packet A {
-  match k as n {
-    [1, ""bb""] : B
-    2 : C
-  },
-}")).
-Eval vm_compute in ("<<<M1390>>>" ++ check (runes_of_ascii "MetaData M {
-    u8 x `
-        x`,
-    T t `
-        x`,
-}")).
-Eval vm_compute in ("<<<M1870>>>" ++ check (runes_of_ascii "options {
-    Logon = """ ++ [28040; 24687]%N ++ runes_of_ascii """;
-    BodyLength = false;
-}")).
-Eval vm_compute in ("<<<M341>>>" ++ check (runes_of_ascii "options  { len = // " ++ [128512]%N ++ runes_of_ascii " emoji
-""packet"" int
-= ""abc""}")).
-Eval vm_compute in ("<<<M284>>>" ++ check (runes_of_ascii "
-options{ trueish=
-'0' //	t
-;a1 = u64
-; }")).
-Eval vm_compute in ("<<<M1821>>>" ++ check (runes_of_ascii "packet MetaDataX {
-    i16 u128 `" ++ [233]%N ++ runes_of_ascii "`,//x
-}")).
-Eval vm_compute in ("<<<M424>>>" ++ check (runes_of_ascii "packet uint8x
-{ match pack
-    as")).
-Eval vm_compute in ("<<<M1684>>>" ++ check (runes_of_ascii "  packet
-A 
-{
-	} 
-    // c" ++ [6158]%N ++ runes_of_ascii "
- 
-")).
-Eval vm_compute in ("<<<M1742>>>" ++ check (runes_of_ascii "
-packet A {u8 x  `
-`
-    ,}
-")).
-Eval vm_compute in ("<<<M1748>>>" ++ check (runes_of_ascii "packet 
-A
-	{ } 
+Eval vm_compute in ("<<<M1770>>>" ++ check (runes_of_ascii "options	{ 
+a
+=
 
-// c" ++ [8232]%N ++ runes_of_ascii "
-")).
-Eval vm_compute in ("<<<M1105>>>" ++ check (runes_of_ascii "MetaData // c
-tag { }")).
-Eval vm_compute in ("<<<M1134>>>" ++ check (runes_of_ascii "MetaData u { // c
+1 
+; // a
+
+  b
+    =
+	2 	 // b
 }")).
-Eval vm_compute in ("<<<M1037>>>" ++ check (runes_of_ascii "// c" ++ [12]%N ++ runes_of_ascii "
+Eval vm_compute in ("<<<M1095>>>" ++ check (runes_of_ascii "packet A { char[ // a
+ 3 // b
+ ] // c
+ x, }")).
+Eval vm_compute in ("<<<M1875>>>" ++ check (runes_of_ascii "
+MetaData
+
+M
+	{} 	 // c
+	options {
+}
+
+")).
+Eval vm_compute in ("<<<M1090>>>" ++ check (runes_of_ascii "packet A { @tag( // a
+ 1 ) u8 x, }")).
+Eval vm_compute in ("<<<M978>>>" ++ check (runes_of_ascii "packet A {
+ u8 x `d `, // c 
+}")).
+Eval vm_compute in ("<<<M419>>>" ++ check (runes_of_ascii "packet uint8x
+{ match pack")).
+Eval vm_compute in ("<<<M1660>>>" ++ check (runes_of_ascii "// top
+MetaData tag {
+}")).
+Eval vm_compute in ("<<<M1794>>>" ++ check (runes_of_ascii "
+packet
+	falsey{ }
+
+")).
+Eval vm_compute in ("<<<M976>>>" ++ check (runes_of_ascii "packet A {
+}
+// c ")).
+Eval vm_compute in ("<<<M1057>>>" ++ check (runes_of_ascii "// c" ++ [6158]%N ++ runes_of_ascii "
 packet A {
 }")).
-Eval vm_compute in ("<<<M1029>>>" ++ check (runes_of_ascii "packet A {
-}// c" ++ [11]%N)).
-Eval vm_compute in ("<<<M1482>>>" ++ check (runes_of_ascii "MetaData u {
-}")).
+Eval vm_compute in ("<<<M1226>>>" ++ check (runes_of_ascii "packet // c
+x { }")).
+Eval vm_compute in ("<<<M742>>>" ++ check (runes_of_ascii "'j=KG=k_)FDOq")).
 Eval vm_compute in ("<<<M1005>>>" ++ check (runes_of_ascii "// c" ++ [8202]%N)).
-Eval vm_compute in ("<<<M72>>>" ++ check (@nil rune)).
+Eval vm_compute in ("<<<M731>>>" ++ check (runes_of_ascii "/")).
